@@ -375,6 +375,9 @@ func (fx *FuncCtx) binop(st *State, op token.Token, l, r Val, lt, rt types.Type,
 				return Not(Eq(lv.Ref, rv.Ref))
 			}
 		}
+		if ri, ok := r.(IfaceV); ok && (op == token.EQL || op == token.NEQ) {
+			return fx.ifacePtrEq(op, ri, lv, lt)
+		}
 	case IfaceV:
 		if rv, ok := r.(IfaceV); ok {
 			switch op {
@@ -383,6 +386,9 @@ func (fx *FuncCtx) binop(st *State, op token.Token, l, r Val, lt, rt types.Type,
 			case token.NEQ:
 				return Not(Eq(lv.T, rv.T))
 			}
+		}
+		if rp, ok := r.(PtrV); ok && (op == token.EQL || op == token.NEQ) {
+			return fx.ifacePtrEq(op, lv, rp, rt)
 		}
 	case StructV:
 		if rv, ok := r.(StructV); ok && (op == token.EQL || op == token.NEQ) {
@@ -436,10 +442,16 @@ func (fx *FuncCtx) binop(st *State, op token.Token, l, r Val, lt, rt types.Type,
 			if st != nil {
 				fx.oblige(st, "div", Not(Eq(b, IntLit(0))), node, "")
 			}
+			if q, _, ok := fx.divMod(st, a, b); ok {
+				return q
+			}
 			return fx.intDiv(a, b, k)
 		case token.REM:
 			if st != nil {
 				fx.oblige(st, "div", Not(Eq(b, IntLit(0))), node, "")
+			}
+			if _, r, ok := fx.divMod(st, a, b); ok {
+				return r
 			}
 			return fx.intRem(a, b, k)
 		case token.EQL:
@@ -1102,4 +1114,43 @@ func (fx *FuncCtx) storeHeap(st *State, prefix string, ref Term, t types.Type, v
 	}
 	h := fx.heapGet(st, prefix, ArraySort(SInt, s))
 	st.heap[prefix] = fx.define(prefix, Store(h, ref, tv))
+}
+
+// divMod names quotient and remainder of a truncated division by a symbolic
+// divisor and states their defining (linearised) properties; solvers reason
+// far better with a = q*b + r than with nested div/mod terms.
+func (fx *FuncCtx) divMod(st *State, a, b Term) (q, r Term, ok bool) {
+	if st == nil || fx.inQuant > 0 {
+		return Term{}, Term{}, false
+	}
+	if _, lit := isIntLit(b); lit {
+		return Term{}, Term{}, false
+	}
+	q = fx.freshConst("quo", SInt)
+	r = fx.freshConst("rem", SInt)
+	zero := IntLit(0)
+	st.assume(Implies(Not(Eq(b, zero)), And(
+		Eq(a, Add(Mul(q, b), r)),
+		Implies(And(Gt(b, zero), Ge(a, zero)), And(Ge(r, zero), Lt(r, b), Ge(q, zero))),
+		Implies(And(Gt(b, zero), Lt(a, zero)), And(Le(r, zero), Gt(r, Neg(b)), Le(q, zero))),
+		Implies(And(Lt(b, zero), Ge(a, zero)), And(Ge(r, zero), Lt(r, Neg(b)), Le(q, zero))),
+		Implies(And(Lt(b, zero), Lt(a, zero)), And(Le(r, zero), Gt(r, b), Ge(q, zero))),
+	)))
+	st.assume(Eq(q, app(SInt, "tdiv", a, b)))
+	st.assume(Eq(r, app(SInt, "tmod", a, b)))
+	return q, r, true
+}
+
+// ifacePtrEq: interface value compared with a pointer: equal iff the dynamic
+// type is the pointer's type and the boxed pointer is the same reference.
+func (fx *FuncCtx) ifacePtrEq(op token.Token, iv IfaceV, p PtrV, pt types.Type) Term {
+	fx.declFun("typeOf", []Sort{SIfc}, SInt)
+	tname := smtName(types.TypeString(pt, func(p *types.Package) string { return p.Name() }))
+	fx.declFun("unbox_"+tname, []Sort{SIfc}, SInt)
+	fx.declare("(declare-const nilIface Iface)")
+	eq := And(Not(Eq(iv.T, Term{"nilIface", SIfc})), Eq(app(SInt, "typeOf", iv.T), IntLit(fx.eng.typeID(pt))), Eq(app(SInt, "unbox_"+tname, iv.T), p.Ref))
+	if op == token.NEQ {
+		return Not(eq)
+	}
+	return eq
 }
